@@ -204,7 +204,7 @@ def run_check(prop: str, tier: str, extra: Any = None) -> int:
     sw = switches()
     q = tier == "quick"
     # ---- design: exhaustive over start offsets x target times x faults with a 12-unit minute
-    scratch = tempfile.mkdtemp(prefix="verif-sch-")
+    scratch = tlc.scratch_dir("sch")
     addf = os.path.join(scratch, "adds.json")
     with open(addf, "w") as f:
         json.dump(mc_adds(), f)
